@@ -151,3 +151,96 @@ CHECK_SLICES = {
     "right": dict(qual="MatrixProduct.check_right_canonical", contract=check_right, subst={"len(self)": "n", "self[i].check_rortho(rtol, atol)": "ortho[i]"},
                   must_hit=("len(self)", "self[i].check_rortho(rtol, atol)")),
 }
+
+# ------------------------------------------------------------------------------------------------ compress: whole sweep on the shape abstraction (C05/C04)
+# Whole-function extraction of MatrixProduct.compress (vk/pyvc/slice.py:whole_function).  The numeric values are abstracted, the *shape* is kept:
+# ghost field `bond` = bond_dims (len site_num + 1).  Substituted sub-expressions (by source text; anything else is executed as written):
+#   len(self) -> self.site_num, self[idx] -> 0, self.total_bytes -> 1, self.is_mpo / self.is_left_canonical -> parameters, the canonical-form checks -> True,
+#   _get_big_qn -> a dummy triple, the svd_qn call -> a tuple whose two sigma slots are sigmas[idx] (one spectrum per site, any length >= 0), v.T -> 0,
+#   set_bonddim(...) -> None.
+# Callees by contract: compress_config.compute_m_trunc (proved in C05_proof: `configs.compute`), _update_ms (shape effect: the cut bond gets
+# min(m_trunc, len(sigma)) entries and the centre moves one site; assumed here, its bookkeeping is decided by Engine S in kernel-stub mode and by the
+# structural link in C05_proof), iter_idx_list and _switch_direction inlined from the current source.
+RECORDS_C = {"CompressConfig": {"max_dims": "list[int]", "threshold": "real", "criteria": "str", "bonddim_should_set": "bool"},
+             "MP": {"qnidx": "int", "site_num": "int", "to_right": "bool", "bond": "list[int]", "qntot": "int", "compress_config": "rec:CompressConfig"}}
+COMPRESS_SUBST = {
+    "len(self)": "self.site_num",
+    "self[idx]": "0",
+    "self.total_bytes": "1",
+    "self.is_mpo": "is_mpo",
+    "self.is_left_canonical": "is_left_canonical",
+    "self.check_left_canonical()": "True",
+    "self.check_right_canonical()": "True",
+    "self._get_big_qn([idx])": "(0, 0, 0)",
+    "svd_qn.svd_qn(mt.array, qnbigl, qnbigr, self.qntot, system=system, full_matrices=False)": "(0, sigmas[idx], 0, 0, sigmas[idx], 0)",
+    "v.T": "0",
+    "self.compress_config.set_bonddim(self.site_num + 1)": "None",
+}
+COMPRESS_MUST_HIT = ("self[idx]", "self._get_big_qn([idx])",
+                     "svd_qn.svd_qn(mt.array, qnbigl, qnbigr, self.qntot, system=system, full_matrices=False)", "v.T")
+COMPRESS_PARAMS = ["self", "temp_m_trunc", "ret_s", "is_mpo", "is_left_canonical", "sigmas"]
+
+update_ms_shape = Contract(
+    "MatrixProduct._update_ms",
+    {"self": "rec:MP", "idx": "int", "u": "int", "vt": "int", "sigma": "list[real]", "qnlset": "int", "qnrset": "int", "m_trunc": "int"},
+    records=RECORDS_C,
+    requires=["idx == self.qnidx", "0 <= idx", "idx < self.site_num", "m_trunc >= 0",
+              "implies(self.to_right, idx + 1 < self.site_num)", "implies(not self.to_right, idx >= 1)", "len(self.bond) == self.site_num + 1"],
+    ensures=[("u1", "self.qnidx == (idx + 1 if old_self.to_right else idx - 1)"), ("u2", "self.to_right == old_self.to_right"),
+             ("u3", "self.site_num == old_self.site_num and len(self.bond) == len(old_self.bond) and self.qntot == old_self.qntot"),
+             ("u4", "self.bond[idx + 1 if old_self.to_right else idx] == min(m_trunc, len(sigma))"),
+             ("u5", "all(self.bond[b] == old_self.bond[b] for b in range(len(self.bond)) if b != (idx + 1 if old_self.to_right else idx))"),
+             ("u6", "self.compress_config.max_dims == old_self.compress_config.max_dims and self.compress_config.criteria == old_self.compress_config.criteria "
+                    "and self.compress_config.threshold == old_self.compress_config.threshold")],
+    modifies=["self"],
+    notes="shape effect of the truncate-and-absorb update: u[:, :m_trunc] keeps min(m_trunc, #columns) columns, #columns = len(sigma)")
+
+compute_m_trunc_callee = Contract(
+    "CompressConfig.compute_m_trunc", {"self": "rec:CompressConfig", "sigma": "list[real]", "idx": "int", "left": "bool"}, records=RECORDS_C,
+    requires=["0 <= idx", "idx + 1 < len(self.max_dims)", "all(m >= 1 for m in self.max_dims)", "len(sigma) >= 1", "0 < self.threshold", "self.threshold < 1",
+              "self.criteria in ('CompressCriteria.threshold', 'CompressCriteria.fixed', 'CompressCriteria.both')"],
+    ensures=[("k1", "result <= len(sigma)"), ("k2", "result >= 0"),
+             ("k3", "implies(self.criteria == 'CompressCriteria.fixed' or self.criteria == 'CompressCriteria.both', result <= self.max_dims[idx + 1 if left else idx])")],
+    result="int", notes="proved from the current source in C05_proof (configs.compute); used here by contract")
+
+_SWEPT = "((1 <= b and b <= k_idx) if self.to_right else (self.site_num - k_idx <= b and b <= self.site_num - 1))"
+_COMMON_INV = ("self.site_num == old_self.site_num and self.to_right == old_self.to_right and len(self.bond) == self.site_num + 1 and "
+               "self.qnidx == (k_idx if self.to_right else self.site_num - 1 - k_idx) and "
+               "self.compress_config.max_dims == old_self.compress_config.max_dims and self.compress_config.criteria == old_self.compress_config.criteria and "
+               "self.compress_config.threshold == old_self.compress_config.threshold and "
+               "self.bond[0] == old_self.bond[0] and self.bond[self.site_num] == old_self.bond[self.site_num]")
+_COMMON_PRE = ["self.site_num >= 1", "len(self.bond) == self.site_num + 1", "0 <= self.qnidx", "self.qnidx < self.site_num",
+               "self.qnidx == (0 if self.to_right else self.site_num - 1)",      # the function's own entry assertions
+               "len(sigmas) == self.site_num", "all(len(s) >= 1 for s in sigmas)", "not ret_s", "not self.compress_config.bonddim_should_set"]
+_COMMON_POST = [("direction_switched", "self.to_right == (not old_self.to_right)"),
+                ("centre_at_far_end", "self.qnidx == (self.site_num - 1 if old_self.to_right else 0)"),
+                ("boundary_bonds_untouched", "self.bond[0] == old_self.bond[0] and self.bond[self.site_num] == old_self.bond[self.site_num]"),
+                ("number_of_sites_unchanged", "self.site_num == old_self.site_num and len(self.bond) == self.site_num + 1")]
+
+
+def _compress_contract(tag, tkind, pre, limit_of_b):
+    c = Contract(
+        f"MatrixProduct.compress[{tag}]",
+        {"self": "rec:MP", "temp_m_trunc": tkind, "ret_s": "bool", "is_mpo": "bool", "is_left_canonical": "bool", "sigmas": "list[list[real]]"},
+        records=RECORDS_C, consts=["np", "svd_qn", "logger"],
+        requires=_COMMON_PRE + pre,
+        ensures=_COMMON_POST + [("every_interior_bond_obeys_its_own_limit",
+                                 f"all(self.bond[b] <= {limit_of_b} for b in range(1, self.site_num))")],
+        invariants={"for#0": [("W1-shape-and-centre", _COMMON_INV),
+                              ("W2-swept-bonds-obey-their-limit", f"all(self.bond[b] <= {limit_of_b} for b in range(self.site_num + 1) if {_SWEPT})")]},
+        modifies=["self"], asserts="prove", bounds="prove",
+        inline={"iter_idx_list": "MatrixProduct.iter_idx_list", "_switch_direction": "MatrixProduct._switch_direction"})
+    c.local_kinds = {"s_list": "list[list[real]]"}
+    return c
+
+
+compress_list = _compress_contract("list", "list[int]", ["len(temp_m_trunc) == self.site_num + 1", "all(m >= 0 for m in temp_m_trunc)"], "temp_m_trunc[b]")
+compress_int = _compress_contract("int", "int", ["temp_m_trunc >= 0"], "temp_m_trunc")
+compress_cfg = _compress_contract(
+    "config", "opt[int]",
+    ["temp_m_trunc is None", "len(self.compress_config.max_dims) == self.site_num + 1", "all(m >= 1 for m in self.compress_config.max_dims)",
+     "0 < self.compress_config.threshold", "self.compress_config.threshold < 1",
+     "self.compress_config.criteria in ('CompressCriteria.fixed', 'CompressCriteria.both')"],
+    "self.compress_config.max_dims[b]")
+CALLEES_COMPRESS = {"_update_ms": update_ms_shape, "compute_m_trunc": compute_m_trunc_callee}
+FINGERPRINT_COMPRESS = {"for#0": "for idx in self.iter_idx_list(full=False)"}
